@@ -101,6 +101,12 @@ func evalConst(v ssa.Value, env triEnv) constant.Value {
 	if t, ok := env[v]; ok && !t.pending {
 		return t.c
 	}
+	// a constant lookup table applied to a known key (consttable.go)
+	if tab, key, half := tableLookup(v); tab != nil {
+		if k := evalConst(key, env); k != nil {
+			return tab.get(k, half)
+		}
+	}
 	return nil
 }
 
@@ -122,6 +128,15 @@ func evalTri(v ssa.Value, env triEnv) int8 {
 			return 2
 		}
 		return 1
+	}
+	switch v.(type) {
+	case *ssa.Lookup, *ssa.Extract:
+		if c := evalConst(v, env); c != nil && c.Kind() == constant.Bool {
+			if constant.BoolVal(c) {
+				return 2
+			}
+			return 1
+		}
 	}
 	switch x := v.(type) {
 	case *ssa.Const:
